@@ -20,15 +20,17 @@ func init() {
 }
 
 // ---------------------------------------------------------------------------------------------
-// Harness-owned clock. Every clock reading, every resolution, every timer creation and every
-// delivery lets an arbitrary amount of time pass ("latency": computation, scheduling); that time is
-// added to vC35_slack. Time the code under test *asks* to wait for (timer durations, and the time a
-// delivery may take within the deadline of the context it was given) is NOT slack. The deadline
-// claims are therefore: elapsed <= budget + slack, for every value of every latency.
+// Harness-owned clock = base + nominal + latency. Every clock reading, every resolution, every timer
+// creation and every delivery lets an arbitrary amount of time pass ("latency": computation,
+// scheduling); that time is accumulated in vC35_lat. Time the code under test *asks* to wait for (timer
+// durations, and the time a delivery may take within the deadline of the context it was given) is
+// accumulated in vC35_nom. elapsed = nom + lat, so the deadline claims "elapsed <= budget + latency,
+// for every value of every latency" are asserted as nom <= budget.
 // ---------------------------------------------------------------------------------------------
 var (
-	vC35_clock int64
-	vC35_slack int64
+	vC35_base int64
+	vC35_nom  int64
+	vC35_lat  int64
 
 	vC35_resolves     int
 	vC35_timers       int
@@ -36,6 +38,7 @@ var (
 	vC35_cancelFns    int
 	vC35_lastResolve  int
 	vC35_everPinned   bool
+	vC35_seenNF       bool
 	vC35_firstNFAt    int64
 	vC35_lastResolved *PID
 	vC35_lastErr      error
@@ -87,14 +90,15 @@ func (c *vC35Context) Value(any) any { return nil }
 func vC35_tick() {
 	d := vNondetInt64("latency")
 	vAssume(d >= 0 && d <= 1<<40)
-	vC35_clock += d
-	vC35_slack += d
+	vC35_lat += d
 }
+
+func vC35_clock() int64 { return vC35_base + vC35_nom + vC35_lat }
 
 // substituted for time.Now
 func vC35_now() time.Time {
 	vC35_tick()
-	return time.Unix(0, vC35_clock)
+	return time.Unix(0, vC35_clock())
 }
 
 // substituted for time.Until
@@ -111,14 +115,14 @@ func vC35_newTimer(d time.Duration) *time.Timer {
 	ch := make(chan time.Time, 1)
 	if vNondetBool("timerFires") || vC35_ctx.cancelled {
 		if d > 0 {
-			vC35_clock += int64(d)
+			vC35_nom += int64(d)
 		}
 		vC35_tick()
-		ch <- time.Unix(0, vC35_clock)
+		ch <- time.Unix(0, vC35_clock())
 	} else {
 		part := vNondetInt64("elapsedBeforeCancel")
 		vAssume(part >= 0 && part <= int64(d))
-		vC35_clock += part
+		vC35_nom += part
 		vC35_ctx.cancelled = true
 		close(vC35_ctx.done)
 	}
@@ -172,8 +176,9 @@ func vC35_actorOf(x *actorSystem, ctx context.Context, name string) (*PID, error
 		default:
 			vC35_lastErr = &vC35NetErr{timeout: true}
 		}
-		if vC35_firstNFAt == 0 {
-			vC35_firstNFAt = vC35_clock
+		if !vC35_seenNF {
+			vC35_firstNFAt = vC35_nom
+			vC35_seenNF = true
 		}
 	default:
 		if vNondetBool("terminalIsNetErr") {
@@ -209,18 +214,18 @@ func vC35_deliver(ctx context.Context, to *PID) (any, error) {
 	vC35_deliveredTo = to
 	c := ctx.(*vC35Context)
 	vC35_tick()
-	vC35_deliverStart = vC35_clock
+	vC35_deliverStart = vC35_nom
 	vC35_deliverDL = c.deadline
 	dur := vNondetInt64("deliverTime")
 	vAssume(dur >= 0 && dur <= 1<<61)
 	if c.deadline != 0 {
-		allowed := c.deadline - vC35_clock
+		allowed := c.deadline - vC35_clock()
 		if allowed < 0 {
 			allowed = 0
 		}
 		vAssume(dur <= allowed)
 	}
-	vC35_clock += dur
+	vC35_nom += dur
 	vC35_tick()
 	if vNondetBool("deliverFails") {
 		vC35_deliverErr = vC35_errDeliver
@@ -232,12 +237,12 @@ func vC35_deliver(ctx context.Context, to *PID) (any, error) {
 
 // common set-up: an actor system with one departed endpoint that may or may not still be inside its
 // handoff window, a local target, a remote target on the departed endpoint and one on a live endpoint
-func vC35_setup() (*PID, int64) {
-	vC35_clock = vNondetInt64("t0")
-	vAssume(vC35_clock > 0 && vC35_clock < 1<<40)
-	vC35_slack = 0
+func vC35_setup() *PID {
+	vC35_base = vNondetInt64("t0")
+	vAssume(vC35_base > 0 && vC35_base < 1<<40)
+	vC35_nom, vC35_lat = 0, 0
 	vC35_resolves, vC35_timers, vC35_delivers, vC35_cancelFns = 0, 0, 0, 0
-	vC35_everPinned, vC35_firstNFAt, vC35_badTimer = false, 0, false
+	vC35_everPinned, vC35_seenNF, vC35_firstNFAt, vC35_badTimer = false, false, 0, false
 	vC35_deliveredTo, vC35_deliverErr, vC35_deliverDL, vC35_deliverStart = nil, nil, 0, 0
 	vC35_inCluster = vNondetBool("inCluster")
 	sys := &actorSystem{}
@@ -249,35 +254,32 @@ func vC35_setup() (*PID, int64) {
 		sys.relocatingEndpoints.Set(address.FormatHostPort("10.0.0.9", 9000), types.Unit{})
 		age := vNondetInt64("ageOfDeparture")
 		vAssume(age >= 0 && age <= 1<<40)
-		vC35_clock += age
+		vC35_base += age
 	}
 	vC35_ctx = &vC35Context{done: make(chan struct{})}
-	vC35_slack = 0
-	return &PID{actorSystem: sys}, vC35_clock
+	return &PID{actorSystem: sys}
 }
 
 func vC35_across() {
-	pid, start := vC35_setup()
+	pid := vC35_setup()
 	maxWait := time.Duration(vNondetInt64("maxWait"))
 	vAssume(maxWait >= -(1<<62) && maxWait <= 1<<61)
 	got, err := pid.deliverAcrossHandoff(vC35_ctx, "target", maxWait, vC35_deliver)
-	end := vC35_clock
-	elapsed := end - start
 
 	vAssert(vC35_delivers <= 1, "the message is delivered at most once")
 	vAssert(!vC35_badTimer, "every back-off sleep is positive and at most the maximum back-off")
 	if maxWait > 0 {
-		vAssert(elapsed <= int64(maxWait)+vC35_slack, "the whole operation (masking + delivery) stays within the caller's timeout, up to latency")
+		vAssert(vC35_nom <= int64(maxWait), "the whole operation (masking + delivery) stays within the caller's timeout, up to latency")
 		if vC35_delivers == 1 {
-			vAssert(vC35_deliverDL != 0 && vC35_deliverDL <= start+int64(maxWait)+vC35_slack, "the delivery is bounded by the caller's remaining budget")
+			vAssert(vC35_deliverDL != 0, "with a caller timeout the delivery gets a deadline")
 		}
 	} else {
-		masked := end
+		masked := vC35_nom
 		if vC35_delivers == 1 {
 			masked = vC35_deliverStart
 			vAssert(vC35_deliverDL == 0, "without a caller timeout the delivery gets the caller's own context")
 		}
-		vAssert(masked-start <= int64(relocationHandoffWindow+relocationNotFoundMaskWindow)+vC35_slack, "without a caller timeout masking is bounded by the handoff window plus the not-found window, up to latency")
+		vAssert(masked <= int64(relocationHandoffWindow+relocationNotFoundMaskWindow), "without a caller timeout masking is bounded by the handoff window plus the not-found window, up to latency")
 	}
 	if !vC35_inCluster {
 		vAssert(vC35_resolves == 1 && vC35_timers == 0, "outside a cluster: one resolution, no sleep")
@@ -304,7 +306,7 @@ func vC35_across() {
 		case vC35_lastResolve == 3:
 			vAssert(vC35_lastErr == err && vC35_retryable(err), "masking a failed resolution gives up with that (retryable) error")
 			if vC35_inCluster && !vC35_everPinned && vC35_timers > 0 {
-				vAssert(end-vC35_firstNFAt <= int64(relocationNotFoundMaskWindow)+vC35_slack, "a name that only ever fails to resolve is masked for at most the not-found window, up to latency")
+				vAssert(vC35_nom-vC35_firstNFAt <= int64(relocationNotFoundMaskWindow), "a name that only ever fails to resolve is masked for at most the not-found window, up to latency")
 				vCover("notfound-gave-up")
 			}
 			if vC35_timers == 0 {
@@ -325,15 +327,14 @@ func vC35_across() {
 }
 
 func vC35_bypass() {
-	pid, start := vC35_setup()
+	pid := vC35_setup()
 	got, err := pid.deliverBypassingHandoff(vC35_ctx, "target", vC35_deliver)
-	end := vC35_clock
 	vAssert(vC35_resolves == 1, "the asynchronous send resolves exactly once")
 	vAssert(vC35_timers == 0, "the asynchronous send never sleeps")
 	vAssert(vC35_delivers <= 1, "the message is delivered at most once")
 	if vC35_delivers == 1 {
 		vAssert(vC35_deliverDL == 0 && vC35_deliveredTo == vC35_lastResolved && vC35_lastResolve <= 2, "delivery uses the caller's context and the resolved target")
-		vAssert(end-start <= (end-vC35_deliverStart)+vC35_slack, "nothing but latency precedes the delivery")
+		vAssert(vC35_deliverStart == 0, "nothing but latency precedes the delivery")
 		if vC35_deliverErr == nil {
 			m, ok := got.(*vC35Marker)
 			vAssert(err == nil && ok && m == vC35_resp, "the delivery's response is returned as is")
@@ -342,7 +343,7 @@ func vC35_bypass() {
 		}
 		vCover("delivered")
 	} else {
-		vAssert(end-start <= vC35_slack, "failing fast takes no time beyond latency")
+		vAssert(vC35_nom == 0, "failing fast takes no time beyond latency")
 		vAssert(err != nil && got == nil, "no delivery => an error is returned")
 		if vC35_lastResolve >= 3 {
 			vAssert(err == vC35_lastErr, "a failed resolution is surfaced as is")
